@@ -50,11 +50,30 @@ def kind_of(lib, cname):
     return next(c for c in lib["classes"] if c["name"] == cname)["kind"]
 
 
+def type_keys(rng, v, p=0.3):
+    """dictionaries with a key "type" (finding F9: written wrapped as {"type": "dict", "value": …} since fix 738540e), sometimes
+    together with a key "value" (the shape of a serialised object), at any depth"""
+    if isinstance(v, dict):
+        if "l" in v:
+            return {"l": [type_keys(rng, x, p) for x in v["l"]]}
+        if "d" in v:
+            items = [[k, type_keys(rng, x, p)] for k, x in v["d"]]
+            keys = [k for k, _ in items]
+            if items and "type" not in keys and rng.random() < p:
+                i = rng.randrange(len(items))
+                items[i][0] = "type"
+                if len(items) > 1 and "value" not in keys and rng.random() < 0.5:
+                    j = rng.choice([x for x in range(len(items)) if x != i])
+                    items[j][0] = "value"
+            return {"d": items}
+    return v
+
+
 def gen_graph(rng, lib, max_nodes=8, cycles=True, task_links=True, tags=True):
     g = cfggen.gen_graph(rng, lib, max_nodes=max_nodes, cycles=cycles)
     for nd in g["nodes"]:
         data = {a["name"] for a in cfggen.all_args(lib, nd["cls"]) if a["decl"] == "data"}
-        nd["values"] = [[k, ({"p": f"/XVDATA/f{rng.randrange(8)}.bin"} if k in data else v)] for k, v in nd["values"]]
+        nd["values"] = [[k, ({"p": f"/XVDATA/f{rng.randrange(8)}.bin"} if k in data else type_keys(rng, v))] for k, v in nd["values"]]
         if not task_links:
             nd["task"] = None
         if tags and rng.random() < 0.25:
@@ -113,7 +132,8 @@ def gen_value(rng, g):
         return {"r": 0}
     if r < 0.7:
         return {"l": [{"r": rng.randrange(n)} for _ in range(rng.choice([1, 2, 3]))]}
-    ks = rng.sample(cfggen.KEYS, rng.choice([1, 2, 3]))
+    ks = rng.sample(cfggen.KEYS + ["type", "value", "type"], rng.choice([1, 2, 3]))
+    ks = list(dict.fromkeys(ks))
     return {"d": [[k, ({"r": rng.randrange(n)} if rng.random() < 0.7 else {"l": [{"r": rng.randrange(n)}, {"r": 0}]})] for k in ks]}
 
 
@@ -123,10 +143,20 @@ def graph_stats(lib, g):
     st["meta_false"] = sum(1 for nd in g["nodes"] if nd["meta"] is False)
     st["paths"] = sum(1 for nd in g["nodes"] for k, v in nd["values"] if isinstance(v, dict) and "p" in v)
     st["tags"] = sum(len(nd.get("tags", [])) for nd in g["nodes"])
+    st["typekey"] = sum(1 for nd in g["nodes"] for k, v in nd["values"] if has_type_key(v))
     st["prerepeat"] = sum(1 for nd in g["nodes"] if len(set(nd["pre"])) < len(nd["pre"]))
     dun = {c["name"] for c in lib["classes"] if c.get("dunder")}
     st["dunder"] = sum(1 for nd in g["nodes"] if nd["cls"] in dun)
     return st
+
+
+def has_type_key(v):
+    if isinstance(v, dict):
+        if "l" in v:
+            return any(has_type_key(x) for x in v["l"])
+        if "d" in v:
+            return any(k == "type" or has_type_key(x) for k, x in v["d"])
+    return False
 
 
 def run(ctx, libs, cases, shards=8):
@@ -254,7 +284,7 @@ def install_local_findings(prop):
 
 
 def feature_key(st):
-    return "+".join(k for k in ("files", "dunder", "meta", "pre", "prerepeat", "init", "taskout", "data", "paths", "tags", "cyclic") if st.get(k)) or "plain"
+    return "+".join(k for k in ("files", "dunder", "meta", "pre", "prerepeat", "init", "taskout", "data", "paths", "tags", "typekey", "cyclic") if st.get(k)) or "plain"
 
 
 def make_cases(ctx, rng, kind, nlibs, per, tag):
